@@ -137,6 +137,8 @@ def run_container(ctx, prop: str, cls: str) -> Result:
         RC.check_record_deletion_joint(ctx, res, cls)
     with res.guard("RC.check_id_monotone(ctx, res, cls)"):
         RC.check_id_monotone(ctx, res, cls)
+    with res.guard("RC.check_record_counters(ctx, res, cls)"):
+        RC.check_record_counters(ctx, res, cls)
     with res.guard("RC.check_weight_accumulation_guarded(ctx, res, cls)"):
         RC.check_weight_accumulation_guarded(ctx, res, cls)
     with res.guard("RC.check_batch_insert(ctx, res, cls)"):
